@@ -422,8 +422,8 @@ namespace trk
         T *allocate(size_t n)
         {
             void *p = malloc(n * sizeof(T)); // exact: one byte beyond is an ASan report
-            if (n)
-                memset(p, 0xCD, n * sizeof(T));
+            if (n) // deterministic garbage (large blocks: the first 64 KiB are enough to make a stray read visible)
+                memset(p, 0xCD, n * sizeof(T) < 65536 ? n * sizeof(T) : 65536);
             if (Registry *r = cur())
                 r->on_allocate(p, n, sizeof(T));
             return (T *)p;
